@@ -238,6 +238,8 @@ class C02(Prop):
             body = ("int f0() { return 1; }\n" + "".join("int v%d;\n" % i for i in range(n // 8)))[:n]
             body = body[:body.rfind("\n") + 1]
             B.append(mkcase("b-pretext-%d" % n, body, (), "boundary", pretext=True))
+        for n in (127, 128, 130, 200, 255, 256, 300):
+            mk("block-%d" % n, "void f() { int q; { int %s; } q = 1; }" % ids("a", n))
         mk("two-sources", "void f() { int time; { int time; } }", second="int g() { return time(); }")
         mk("empty", "")
         mk("nul-bytes", "int x;\x00\x00 int y;\n")
